@@ -110,7 +110,10 @@ def oracle(program, aux):
         iso = open_image(imgs[-1])
         if isinstance(iso, Exception):
             if gen_no == 1:
-                run.stats['c01_c02_domain'] += 1
+                # the image the library has just mastered cannot be opened by it: no re-mastering at all (C01 reports the same
+                # under its own clause)
+                failures.append(('C05/open-of-mastered-image/' + exc_signature(iso), 'remastered-unreadable',
+                                 'the image just mastered cannot be opened, so it cannot be re-mastered: %s: %s' % (type(iso).__name__, iso)))
             else:
                 failures.append(('C05/reopen-of-remastered/' + exc_signature(iso), 'remastered-unreadable',
                                  'the re-mastered image cannot be opened: %s: %s' % (type(iso).__name__, iso)))
